@@ -172,9 +172,9 @@ text=("Model of Glob (component loop, literal fast path, directory scan with the
     "C02": dict(
         text=("Token level. The grammar of parser.go.y is written as a derivation relation over token lists (Parse/GrammarSpec.v); the model of the "
               "generated parser with its rule actions is a fuelled predictive parser that builds the position-free skeleton of the AST. Proved, for all "
-              "token lists: every derivable program is accepted with all tokens consumed and exactly the derivation's skeleton (completeness; the only "
-              "alternative answer is an exhausted recursion budget, which the check reports if it ever occurs); conversely every accepted input has a "
-              "derivation with that skeleton (soundness); the skeleton is unique; the budget never changes an answer. Tie to the code on every run: the "
+              "token lists: every derivable program is accepted with all tokens consumed and exactly the derivation's skeleton (completeness); conversely every "
+              "accepted input has a derivation with that skeleton (soundness); the skeleton is unique; the model always answers -- it accepts "
+              "exactly the programs of the grammar and rejects the rest, its recursion budget 10*(tokens+2) always suffices (GrammarBudget.v). Tie to the code on every run: the "
               "tokens the real parser received (hook VerifTokenHook) are fed to the extracted model and its verdict/skeleton/error token are compared "
               "with ParseCommands' error, AST skeleton and error position, on generated programs, token mutants (incl. glued composite words), short "
               "strings and words in NAME/IO-number/assignment positions. Lexing half (source text -> tokens, reserved-word recognition) is NOT proved: "
@@ -184,7 +184,8 @@ text=("Model of Glob (component loop, literal fast path, directory scan with the
         design="5 C02"),
     "C03": dict(
         text=("Token level (same model as C02). Proved for all token lists: whatever is accepted is a sentence with every token accounted for in the tree "
-              "(none dropped or re-associated), and a reported syntax error implies that no derivation exists. On every run: (a) the model judges the "
+              "(none dropped or re-associated), a reported syntax error implies that no derivation exists, every token list that is not a sentence is "
+              "rejected (the model never runs out of budget), and the error designates a received token. On every run: (a) the model judges the "
               "token stream delivered to the real parser: ParseCommands must fail whenever the model rejects, at the token the model stops at when the "
               "message is a parser-side 'unexpected ...'; (b) implementation side: every reported syntactic failure is a parser.Error with the caller's "
               "name and a line:column inside the consumed text at the start of a token, for all single-token mutations (deletion, insertion, duplication, "
